@@ -21,8 +21,8 @@ Inductive nstate := Pledging | Accepted | Removed | Cancelled.
    new state, hash of the transaction that caused it *)
 Record nrec := mkrec { r_id : N; r_ts : Z; r_state : nstate; r_tx : N }.
 
-Definition two64 : Z := 2 ^ 64.
-Definition two63 : Z := 2 ^ 63.
+Definition two64 : Z := 18446744073709551616.  (* 2^64 *)
+Definition two63 : Z := 9223372036854775808.   (* 2^63 *)
 Definition u64 (z : Z) : Z := z mod two64.
 (* int64(x) for a uint64 x (time.Duration conversion) *)
 Definition to_int64 (z : Z) : Z := if z <? two63 then z else z - two64.
